@@ -78,11 +78,12 @@ def run(tier, seed, ctx):
         for j in range(i, len(qs)):
             cases.append(((i, j), 'addh M - 0 0 0 3 G0r F %s F %s 0 ' % (texts[i], texts[j])))
     # the received event: two receivers of one event are accepted iff neither is mutable (shared xor exclusive)
+    # (every sequence of 2..4 receivers: a conflict found among the first ones must stay found when more follow)
     recv_cases = []
-    for a in 'rm':
-        for b in 'rm':
+    for n in (2, 3, 4):
+        for ms in itertools.product('rm', repeat=n):
             for ev, q in (('G0', ''), ('G1', ''), ('T0', ' e'), ('T1', ' r0')):
-                recv_cases.append(((a, b), 'addh M - 0 0 0 2 %s%s%s %s%s%s 0 ' % (ev, a, q, ev, b, q)))
+                recv_cases.append((ms, 'addh M - 0 0 0 %d %s 0 ' % (n, ' '.join('%s%s%s' % (ev, a, q) for a in ms))))
     rpath = os.path.join(ctx['CACHE'], 'c05_receivers.ops')
     open(rpath, 'w').write('\nreset\n'.join(c[1] for c in recv_cases) + '\n')
     path = os.path.join(ctx['CACHE'], 'c05_pairs.ops')
@@ -112,9 +113,9 @@ def run(tier, seed, ctx):
             if p.returncode != 0 or len(verdicts) != len(recv_cases):
                 violations.append((dict(kind='c05-receivers', broken='harness run', profile=prof, rc=p.returncode, got=len(verdicts), expected=len(recv_cases), stderr=p.stderr[-500:]), False))
                 break
-            for ((a, b), op), v in zip(recv_cases, verdicts):
+            for (ms, op), v in zip(recv_cases, verdicts):
                 accepted = not v.startswith('R panic')
-                exp = (a == 'r' and b == 'r')
+                exp = all(a == 'r' for a in ms)
                 if accepted != exp:
                     violations.append((dict(kind='c05-receivers', profile=prof, ops=[op.strip()], implementation='accepted' if accepted else 'rejected: ' + v,
                                             documented_meaning='must be accepted' if exp else 'must be rejected: the handler would access the received event both shared and exclusively'), True))
